@@ -1,3 +1,4 @@
+import ZkModel.Zkey
 import ZkModel.Basic
 import ZkModel.Hashers
 import ZkModel.Codec
@@ -459,6 +460,18 @@ def step (st : St) (line : String) : St × String :=
           | none => .panic
       (st, showOutcome (r.map fr))
     | _, _, _, _, _ => (st, "bad-op")
+  -- `read_zkey(Cursor(bytes))`: digest of the proving key's raw points and of the two constraint matrices (ZkModel/Zkey.lean);
+  -- the property (C17) does not say what a key file means, so there is no specification answer: a difference is a
+  -- model / implementation disagreement, never by itself a violation
+  | ["zkey", bs] =>
+    match parseHexBytes bs with
+    | some b => (st, match e.mode with | .model => Zkey.run b | .spec => "n/a")
+    | none => (st, "bad-op")
+  -- a reader that delivers a few bytes per `read()` call is still the same byte string (`read_exact` semantics)
+  | ["zkey_chunk", _, bs] =>
+    match parseHexBytes bs with
+    | some b => (st, match e.mode with | .model => Zkey.run b | .spec => "n/a")
+    | none => (st, "bad-op")
   | [op, bs] =>
     match (if isHashOp op then parseHexBytes bs else none) with
     | none => match ProtoDriver.stepPure (protoEnv e) [op, bs] with
@@ -486,6 +499,15 @@ def step (st : St) (line : String) : St × String :=
 partial def loop (h : IO.FS.Stream) (out : IO.FS.Stream) (st : St) : IO Unit := do
   let line ← h.getLine
   if line.isEmpty then return ()
+  -- the only op that reads a file: the key file is 3.4 MB, too long for a line
+  if line.startsWith "zkeyfile " || line.startsWith "zkeyfile_buf " || line.startsWith "zkeyfile_chunk " then
+    let path := ((line.trimAscii.toString.splitOn " ").getLast?).getD ""
+    let o ← try
+        let b ← IO.FS.readBinFile path
+        pure (match st.env.mode with | .model => Zk.Zkey.run b.toList | .spec => "n/a")
+      catch _ => pure "bad-op"
+    out.putStrLn o
+    return (← loop h out st)
   let (st', o) := step st line
   out.putStrLn o
   loop h out st'
